@@ -606,10 +606,12 @@ primary_thread(void)
     }
     VERIF_EV("\"e\":\"Uninit\",\"eof\":%d,\"wu\":%u,\"os\":%u,\"is\":%u,"
              "\"live\":[%d,%d,%d,%d,%d],\"peak\":[%d,%d,%d,%d,%d],"
-             "\"rss\":%ld,\"hwm\":%ld", (int)eof, work_units, out_slots, in_slots,
+             "\"rss\":%ld,\"hwm\":%ld,\"heapk\":%ld", (int)eof, work_units,
+             out_slots, in_slots,
              verif_live(0), verif_live(1), verif_live(2), verif_live(3),
              verif_live(4), verif_peak(0), verif_peak(1), verif_peak(2),
-             verif_peak(3), verif_peak(4), (long)ru.ru_maxrss, hwm);
+             verif_peak(3), verif_peak(4), (long)ru.ru_maxrss, hwm,
+             verif_heap_kib());
   }
 #endif
 
@@ -688,8 +690,10 @@ copy(void)
   init_io();
   halt();
   uninit_io();
-  VERIF_EV("\"e\":\"CopyUninit\",\"eof\":%d,\"os\":%u,\"is\":%u", (int)eof,
-           out_slots, in_slots);
+#ifdef KJN_LBZIP2_VERIF
+  VERIF_EV("\"e\":\"CopyUninit\",\"eof\":%d,\"os\":%u,\"is\":%u,"
+           "\"heapk\":%ld", (int)eof, out_slots, in_slots, verif_heap_kib());
+#endif
 }
 
 
@@ -748,6 +752,7 @@ work(void)
   total_in_slots = verif_env("VERIF_IN_SLOTS", total_in_slots);
   total_out_slots = verif_env("VERIF_OUT_SLOTS", total_out_slots);
   verif_alloc_reset();
+  verif_heap_mark();
   VERIF_EV("\"e\":\"Start\",\"d\":%d,\"W\":%u,\"tin\":%u,\"tout\":%u,"
            "\"ig\":%lu,\"og\":%lu,\"ultra\":%d,\"small\":%d,\"bs\":%u",
            (int)decompress, num_worker, total_in_slots, total_out_slots,
